@@ -326,3 +326,52 @@ Proof.
   exists l', st'. split; [|exact Hrel'].
   unfold tcp_server_run. rewrite run_eff. exact (run_feed sk cfg Hsk _ _ _ _ _ _ _ Hfeed Hall).
 Qed.
+
+(* ================================================================== establishing the hypotheses *)
+Definition block_u16 (b : block) : Prop :=
+  match b with
+  | BSeq s => Forall u16v (sb_vals s)
+  | BSp s => Forall (fun kv => u16v (snd kv)) (sp_vals s)
+  end.
+
+Lemma d_get_in d k v : d_get d k = Some v -> exists k', In (k', v) d.
+Proof.
+  induction d as [|[k0 v0] t IH]; cbn [d_get]; [discriminate|].
+  destruct (k0 =? k).
+  - intros H. injection H as ->. exists k0. now left.
+  - intros H. destruct (IH H) as [k' Hk]. exists k'. now right.
+Qed.
+
+Lemma cells_ok_abs c : Forall block_u16 (cx_blocks c) -> cells_ok (abs c).
+Proof.
+  intros H b k v. unfold abs. cbn [a_cell]. unfold nth_block.
+  destruct (Nat.lt_ge_cases b (length (cx_blocks c))) as [Hlt|Hge].
+  - pose proof (nth_In (cx_blocks c) (BSeq {| sb_addr := 0; sb_vals := []; sb_def := 0 |}) Hlt) as Hin.
+    rewrite Forall_forall in H. specialize (H _ Hin).
+    destruct (nth b (cx_blocks c) _) as [sq|sp]; cbn [blk_cell block_u16] in *.
+    + unfold Store_proofs.seq_cell. destruct (_ && _); [|discriminate]. intros E. apply nth_error_In in E.
+      rewrite Forall_forall in H. exact (H _ E).
+    + unfold Store_proofs.sp_cell. intros E. destruct (d_get_in _ _ _ E) as [k' Hk].
+      rewrite Forall_forall in H. exact (H _ Hk).
+  - rewrite nth_overflow by exact Hge. cbn [blk_cell]. unfold Store_proofs.seq_cell. cbn [sb_vals sb_addr].
+    destruct (_ && _); [|discriminate]. destruct (Z.to_nat _); discriminate.
+Qed.
+
+(* the abstract states of a list of hosted datastores *)
+Definition abs_units (l : units slavectx) : sunits := map (fun p => (fst p, abs (snd p))) l.
+
+Definition store_ok (c : slavectx) : Prop := inv c /\ Forall block_u16 (cx_blocks c).
+
+Lemma units_rel_abs l : Forall (fun p => store_ok (snd p)) l -> units_rel l (abs_units l).
+Proof.
+  induction 1 as [|[u c] t [Hi Hb] Ht IH]; [constructor|]. cbn [abs_units map fst snd].
+  constructor; [|exact IH]. split; [exact Hi|]. split; [apply aeq_refl|now apply cells_ok_abs].
+Qed.
+
+Theorem e2e_tcp_abs sk cfg eof l qs chunks :
+  In sk tcp_fes -> Forall (fun p => store_ok (snd p)) l -> Forall (req_ok sk cfg (u_keys slavectx l)) qs ->
+  concat (eff_chunks eof chunks) = concat (map req_adu qs) ->
+  exists l' st',
+    tcp_server_run sk cfg eof l chunks = result l' (snd (spec_run (cf_single cfg) (abs_units l) qs)) st' /\
+    units_rel l' (fst (spec_run (cf_single cfg) (abs_units l) qs)).
+Proof. intros Hsk Hl. apply e2e_tcp; [exact Hsk|now apply units_rel_abs]. Qed.
